@@ -13,10 +13,11 @@ for d in "$wt"/out/*/; do
   c="$d/confirm.txt"
   echo "--- $prop-$k: $(tr '\n' ' ' < "$c" | cut -c1-300)"
   if grep -q "apply=ok" "$c" && grep -q "demo_with_patch_rc=[1-9]" "$c" && grep -q "demo_without_patch_rc=0" "$c" && ! grep -q "FAILED" "$c"; then
-    dst=/verif/seeded/$prop-$k
+    dst=/verif/seeded/$prop-$((k + ${OFFSET:-0}))
     mkdir -p "$dst"
     cp "$d/patch.diff" "$d/meta.json" "$dst/" 2>/dev/null
-    cp "$d"/demo.* "$dst/" 2>/dev/null
+    # the demonstration (demo.sh and whatever it needs), not the logs or build output
+    find "$d" -maxdepth 1 -type f ! -name '*.log' ! -name 'confirm.txt' ! -name 'patch.diff' ! -name 'meta.json' -size -200k -exec cp {} "$dst/" \;
     out=$(bash tools/try_mutant.sh "$dst/patch.diff" $checks 2>&1)
     echo "$out" | cut -c1-260
     python3 - "$dst" "$checks" <<PY
